@@ -142,5 +142,12 @@ func genC09(o *hx.Out, r *hx.Rng, tier string, replay string) error {
 			return err
 		}
 	}
+	// projections made of the .config group alone whose first result has no file
+	// configuration (c08gaps3.go): the fields added later must take part in the order
+	for i := 0; i < 40*mul; i++ {
+		if err := c08CfgOnly(o, r, pl, true); err != nil {
+			return err
+		}
+	}
 	return nil
 }
